@@ -132,6 +132,30 @@ def run(tier, seed, replay=None):
     rng = C.rng_for(seed, PID)
     cases = [gen_history(rng) for _ in range(400 if tier == 'quick' else 5000)]
     obs = [run_impl(*c) for c in cases]
+    # nearly all-in submissions: the history is run once, the available margin is read off the implementation, and one more non-reduce-only order is
+    # appended whose margin requirement (notional / leverage) lies 0.012-0.05 percent below (must be accepted) or above (must be rejected) that margin
+    # - the accept/reject clause at its boundary, at a distance the robustness filter (1e-6) keeps
+    n_probe = 0
+    for k in range(min(len(cases), 150 if tier == 'quick' else 1500)):
+        b, l, f_, n, ops = cases[k]
+        ob = obs[k]
+        if not ob or ob[-1][0] is not True or len(ob) != len(ops):
+            continue
+        am = ob[-1][2]
+        if not am > 1.0:
+            continue
+        i = rng.randrange(n)
+        cur = 64.0
+        for o in ops:
+            if o[0] == 'price' and o[1] == i: cur = o[2]
+        typ = rng.choice(['MARKET', 'LIMIT', 'STOP'])
+        side = rng.choice(['buy', 'sell'])
+        pr = cur if typ == 'MARKET' else cur + rng.choice([-2, -1, 1, 2, 0.5])
+        delta = rng.choice([1 / 4096, 1 / 8192, 1 / 2048, -1 / 4096, -1 / 8192])
+        qty = am * l / pr * (1 - delta)
+        nid = 1 + max([o[1] for o in ops if o[0] == 'submit'] + [0])
+        ops2 = ops + [('submit', nid, i, side, typ, qty, pr, False)]
+        cases.append((b, l, f_, n, ops2)); obs.append(run_impl(b, l, f_, n, ops2)); n_probe += 1
     hdr = 'From Coq Require Import ZArith QArith Qcanon List Bool.\nFrom JV Require Import Base.Num Model.Spot Model.Futures Spec.RefFutures Run.Harness Run.C03Run.\nImport ListNotations.\n'
     jobs = []
     SH = 100
@@ -163,10 +187,10 @@ def run(tier, seed, replay=None):
     res.add_cases(len(cases), len({json.dumps(c) for k, c in enumerate(cases) if k not in fragile and any(o[0] == 'execute' for o in c[4])}),
                   [{'balance': cases[0][0], 'leverage': cases[0][1], 'fee': cases[0][2], 'symbols': cases[0][3], 'ops': cases[0][4][:8]}],
                   'random legal histories over 1-2 symbols sharing the wallet: market/limit/stop, long and short, increases, partial and oversize '
-                  'reductions, exact closes, flips, reduce-only exits, repeated execute/cancel calls, price moves, occasional over-margin submissions; '
+                  'reductions, exact closes, flips, reduce-only exits, repeated execute/cancel calls, price moves, occasional over-margin submissions, and nearly all-in submissions placed 0.012-0.05 percent below / above the available margin read off the run; '
                   'leverage 1..10, fees 0, 1/1024, 1/2048, 0.0004; non-trivial = distinct, robust, with an execution')
     res.extra.update({'op_histogram': kinds, 'discarded_fragile_decisions': len(fragile), 'histories_outside_the_legal_quantifier (model correspondence only)': len(illegal), 'monitor_evaluations': len(cases) - len(fragile),
-                      'histories_ending_in_rejection': sum(1 for ob in obs if ob and ob[-1][0] is False),
+                      'near_all_in_probe_histories': n_probe, 'histories_ending_in_rejection': sum(1 for ob in obs if ob and ob[-1][0] is False),
                       'model_mismatches': len(bad_model), 'reference_mismatches': len(bad_ref)})
     seen = set()
     for i in sorted(bad_ref, key=lambda i: len(cases[i][4])):
